@@ -448,8 +448,9 @@ def check(col, root, how, case_label):
         res = h.call(root.validate)
     else:
         res = h.call(Validation, root)
-    witness = {'case': case_label, 'validated': obj_label(root), 'via': how,
-               'graph': describe(h.roots_of([root])[0])}
+    def wit(**extra):               # the graph description is only built when a failure needs it
+        return dict({'case': case_label, 'validated': obj_label(root), 'via': how,
+                     'graph': describe(h.roots_of([root])[0])}, **extra)
     exp_kinds = frozenset(k for (_, k), n in ex.fixed.items() if n) | \
         frozenset(g[0] for g in ex.groups)
     if res[0] == 'exc':
@@ -469,7 +470,7 @@ def check(col, root, how, case_label):
             feature += ': ' + obj_label(obj)
         col.fail(check=NAME + '/terminates-without-raising',
                  cls={'clause': 'terminates-without-raising', 'feature': feature},
-                 witness=dict(witness, at=obj_label(obj)),
+                 witness=wit(at=obj_label(obj)),
                  detail='observed %s: %s (last frames: %s); contract requires the validation to return'
                         % (type(exc).__name__, exc,
                            ' <- '.join('%s:%d' % (f.name, f.lineno) for f in traceback.extract_tb(exc.__traceback__)[-3:][::-1])))
@@ -484,7 +485,7 @@ def check(col, root, how, case_label):
         if e.rank != RANK[kind] or bool(e.is_error) != (RANK[kind] == ERR) or bool(e.is_warning) != (RANK[kind] == WARN):
             col.fail(check=NAME + '/rank',
                      cls={'clause': 'rank', 'feature': '%s reported as %s' % (kind, e.rank)},
-                     witness=dict(witness, at=obj_label(e.obj)),
+                     witness=wit(at=obj_label(e.obj)),
                      detail='issue %s on %s has rank %r (is_error=%r); the statement makes it %s'
                             % (kind, obj_label(e.obj), e.rank, e.is_error, RANK[kind]))
         if kind in GROUP_KINDS:
@@ -517,7 +518,7 @@ def check(col, root, how, case_label):
         key = keys[0]
         col.fail(check=NAME + '/no-false-negative',
                  cls={'clause': 'no-false-negative', 'feature': situation},
-                 witness=dict(witness, at=obj_label(ex.objs[key[0]])),
+                 witness=wit(at=obj_label(ex.objs[key[0]])),
                  detail='%d issue(s) that Validation(object) reports for the object itself are missing when %s is validated, '
                         'e.g. %s (%s) on %s; kinds: %s'
                         % (len(keys), obj_label(root), key[1], ex.labels.get(key), obj_label(ex.objs[key[0]]),
@@ -530,7 +531,7 @@ def check(col, root, how, case_label):
             clause = 'no-false-positive' if g > x == 0 else 'no-false-negative' if x > g == 0 else 'multiplicity'
             feature = '%s: %s' % (key[1], ex.labels[key])
         col.fail(check=NAME + '/' + clause, cls={'clause': clause, 'feature': feature},
-                 witness=dict(witness, at=obj_label(o)),
+                 witness=wit(at=obj_label(o)),
                  detail='%s on %s reported %d time(s); the documented rule prescribes %d' % (key[1], obj_label(o), g, x))
 
     # -- groups of duplicates ----------------------------------------------------------------
@@ -559,14 +560,14 @@ def check(col, root, how, case_label):
             label += group_situation(ex, family, members, flagged, got_group)
         if bad:
             col.fail(check=NAME + '/' + bad[0], cls={'clause': bad[0], 'feature': '%s: %s' % (family, label)},
-                     witness=dict(witness, at=[obj_label(m) for m in members]),
+                     witness=wit(at=[obj_label(m) for m in members]),
                      detail='group %s: %s' % (label, bad[1]))
     for k, objs in got_group.items():
         for o in objs:
             if id(o) not in claimed[k]:
                 col.fail(check=NAME + '/no-false-positive',
                          cls={'clause': 'no-false-positive', 'feature': '%s: object-shares-nothing' % k},
-                         witness=dict(witness, at=obj_label(o)),
+                         witness=wit(at=obj_label(o)),
                          detail='%s reported on %s which shares its %s with no object in scope'
                                 % (k, obj_label(o), 'id' if k in ID_KINDS else 'name'))
     return exp_kinds
@@ -1248,6 +1249,8 @@ LINK_MODES = collections.OrderedDict([
     ('include-constructor-finalize-first-section', (True, 'include', '', None, None)),
     ('link-to-linking-section', (False, 'link', None, '/tmpl', 'chain')),
     ('link-target-contains-linking-section', (True, 'link', None, '/outer/tmpl', 'link-in-target')),
+    # sibling dimension: another attribute that ties a Section to a terminology, without any merge
+    ('repository-set-no-link', (False, 'repository', None, '', None)),
 ])
 
 
@@ -1259,9 +1262,10 @@ class LinkScenario(object):
         self.mode, self.kind, self.extra = mode, kind, extra
         self.doc = D()
         self.holder = S('outer', 'o', parent=self.doc) if nested else self.doc
-        if kind == 'include':
+        if kind in ('include', 'repository'):
             ctor = None if ctor is None else url + ctor
             setter = None if setter is None else url + setter
+        if kind == 'include':
             S('tmpl', 'other', parent=self.holder)          # a local Section of that name is not the target
         else:
             _template(self.holder)
@@ -1282,7 +1286,11 @@ class LinkScenario(object):
         if self.extra == 'link-in-target':
             tsub = at(self.holder, 'tmpl/tsub')
             self._do(setattr, tsub, 'link', '/outer/plain')
-        if self.setter is not None:
+        if self.kind == 'repository':
+            self._do(setattr, self.doc, 'repository', self.setter)
+            self._do(setattr, self.rec, 'repository', self.setter)
+            self._do(setattr, at(self.holder, 'rec/own'), 'repository', self.setter)
+        elif self.setter is not None:
             self._do(setattr, self.rec, self.kind, self.setter)
         else:
             self._do(self.doc.finalize)
@@ -1333,8 +1341,7 @@ def run_links(col, tier, seed):
         other = S('second', 'n.s.', parent=lib)               # warnings do not keep a document from being saved
         P('sp', values=[1], parent=other)
         url = env.publish(lib, 'lib.xml')
-        full_modes = ('link-setter-absolute', 'link-setter-below-section', 'include-setter-path',
-                      'link-to-linking-section')
+        full_modes = ('link-setter-below-section', 'include-setter-path')
         for params, sc, path, vname, timing in gen_link_scenarios(tier, url):
             mode = params[0]
             focus = [None]
